@@ -89,6 +89,25 @@ func (t *tdWorld) settleExcept() {
 	}
 }
 
+// badStream reports a connection whose byte stream from the broker could not be
+// parsed into whole well-formed packets (C17 holds for every scenario).
+func (t *tdWorld) badStream() bool {
+	for _, c := range t.w.Clients {
+		if c.Bad != "" {
+			vsched.Failf("%s", c.Bad)
+			return true
+		}
+	}
+	// a client that reads and has taken everything: the stream must end at a packet boundary
+	for _, c := range t.order {
+		if !c.noRead && !c.ended && !c.rc.Dead && len(c.rc.rx) > 0 && c.rc.vc.Pending() == 0 {
+			vsched.Failf("the stream to %s ends with %d bytes that are no complete packet (%x...)", c.name, len(c.rc.rx), head(c.rc.rx, 16))
+			return true
+		}
+	}
+	return false
+}
+
 // threadsOf returns the library threads still alive under a connection's handler.
 func threadsOf(alive []vsched.Parked, prefix string) []vsched.Parked {
 	var out []vsched.Parked
